@@ -11,6 +11,7 @@
 EXTENDS Expr
 
 LenBonus == 0     \* overridden by thorough profiles (LenBonus <- LB1 ...)
+LBm1 == 0 - 1
 LB1 == 1
 LB2 == 2
 LB3 == 3
@@ -79,6 +80,9 @@ U_C06 ==
     \cup {DataDecl(md, w, {88, 10, 1}, 5) : md \in RegexModes("Xplus_or_end"), w \in Windows}
     \cup {DataDecl(md, w, {89, 1}, 6) : md \in RegexModes("Ystar"), w \in Windows}
     \cup {DataDecl(md, w, {0, 1, 65}, 5) : md \in {SzRegex("EOS", FALSE, TRUE)}, w \in {-1, 2}}
+    \* context-sensitive regexes: what precedes the search buffer must not matter
+    \cup {DataDecl(md, w, {81, 90, 1}, 5) : md \in RegexModes("QnotZ"), w \in {-1, 2, 3}}
+    \cup {DataDecl(md, w, {88, 1}, 5) : md \in RegexModes("caretX"), w \in {-1, 2}}
     \* the same field one level down, after a header byte of the outer packet
     \cup {DeclP([C0 |-> Class(DefaultOpts, <<U1("h"), RefF("s", "C1"), U1("t")>>),
                  C1 |-> Class([DefaultOpts EXCEPT !.sbl = w], <<U1("pre"), DataF("d", md), U1("post")>>)],
@@ -117,6 +121,7 @@ Elems == {U1("e"), IntF("e", 2, TRUE, "little"), DataF("e", SzConst(1)), DataF("
           RefSelF("e", EF("t"), <<[key |-> 0, alt |-> DataF("", SzConst(1))],
                                   [key |-> 1, alt |-> RefF("", "C1")]>>, "lambda", IntV(0))}
 Counts == {SzConst(-1), SzConst(0), SzConst(2), SzField("n"), Defer(EBin("sub", EF("n"), EC(1))),
+           Defer(EBin("add", EC(1), EBin("floordiv", EC(2), EF("n")))),      \* raises for n = 0, mid-evaluation
            Defer(EBin("mul", EF("n"), EC(2))), Lam(EBin("add", EF("n"), EC(1))), Lam(EF("n"))}
 Whens == {NoCond, SzField("t"), Defer(EBin("eq", EF("t"), EC(1))), Lam(EBin("gt", EF("t"), EC(0)))}
 \* until conditions by element kind
@@ -144,7 +149,14 @@ U_C08_Nest == {DeclP([C0 |-> Class(DefaultOpts, <<S1("n"), RepCountF("r", RefF("
                       C1 |-> Class(DefaultOpts, <<U1("m"), RepCountF("s", U1("e"), SzField("m"), NoCond, 0),
                                                   OptF("o", RefF("e", "C2"), Defer(EBin("gt", EF("m"), EC(1))))>>),
                       C2 |-> Class(DefaultOpts, <<U1("q")>>)], {0, 1, 2}, 6, {0, 1})}
-U_C08 == U_C08_Count \cup U_C08_Until \cup U_C08_Opt \cup U_C08_Nest
+\* two references (plain and repeated) selecting from ONE shared option table
+SharedAlts == <<[key |-> 0, alt |-> IntF("", 1, FALSE, "default")], [key |-> 1, alt |-> IntF("", 2, FALSE, "default")],
+                [key |-> 2, alt |-> DataF("", SzConst(1))]>>
+U_C08_Shared == {CtlDecl(<<U1("t"), RefSelSharedF("v", EF("t"), SharedAlts, "T1", IntV(0)),
+                           RefSelSharedF("w", EF("t"), SharedAlts, "T1", IntV(0)), U1("z")>>, 6),
+                 CtlDecl(<<U1("t"), U1("n"), RepCountF("r", RefSelSharedF("e", EF("t"), SharedAlts, "T1", IntV(0)), SzField("n"), NoCond, 0),
+                           RefSelSharedF("w", EF("t"), SharedAlts, "T1", IntV(0))>>, 6)}
+U_C08 == U_C08_Count \cup U_C08_Until \cup U_C08_Opt \cup U_C08_Nest \cup U_C08_Shared
 
 \* -------------------------------------------------------------------- C10
 Refs == {"innermost-pkt", "begins", "current-offset"}
@@ -172,7 +184,15 @@ U_C10_Elem == {DeclP([C0 |-> Class(DefaultOpts, <<U1("n"), RepCountF("r", e, SzF
                  mv \in {NoMv, [kind |-> "aligned", arg |-> SzConst(4), ref |-> "innermost-pkt"]}}
               \cup {DeclP([C0 |-> Class(DefaultOpts, <<RepUntilF("r", U1("e"), Lam(EBin("eq", EIdx(EF("r"), EC(-1)), EC(0))), NoCond, al), U1("z")>>)],
                           {0, 1, 2}, 6, {0}) : al \in {2, 3}}
-U_C10 == U_C10_Flat \cup U_C10_Nest \cup U_C10_Class \cup U_C10_Elem
+\* a later field placed BEFORE an earlier one (no overlap): output order differs from position order
+U_C10_Back == {DeclP([C0 |-> Class(DefaultOpts, <<MvField(IntF("a", 2, FALSE, "default"), [kind |-> "at", arg |-> SzConst(p1), ref |-> r]),
+                                                  MvField(U1("b"), [kind |-> "at", arg |-> SzConst(p2), ref |-> r]), U1("c")>>)],
+                     {0, 1, 2}, 5, IF r = "begins" THEN {0} ELSE {0, 1}) :
+                  p1 \in {2, 3}, p2 \in {0, 1}, r \in {"innermost-pkt", "begins"}}
+              \cup {DeclP([C0 |-> Class(DefaultOpts, <<U1("h"), IntF("a", 2, FALSE, "default"),
+                                                       MvField(U1("b"), [kind |-> "shift", arg |-> SzConst(0 - k), ref |-> "current-offset"]),
+                                                       U1("c")>>)], {0, 1, 2}, 5, {0, 1}) : k \in {1, 2, 3}}
+U_C10 == U_C10_Flat \cup U_C10_Nest \cup U_C10_Class \cup U_C10_Elem \cup U_C10_Back
 
 \* -------------------------------------------------------------------- C12
 \* nested declarations driven into failure at every depth
@@ -216,17 +236,31 @@ U_C01_Overlap == {DeclP([C0 |-> Class(DefaultOpts, <<U1("a"), DataF("b", SzConst
                                                     MvField(DataF("c", SzField("a")), [kind |-> "at", arg |-> g, ref |-> "innermost-pkt"]),
                                                     MvField(U1("d"), [kind |-> "at", arg |-> SzConst(1), ref |-> "begins"])>>)],
                         {0, 1, 2, 46}, 5, {0}) : g \in {SzConst(0), SzConst(2), SzConst(3), SzConst(4)}}
-U_C01 == U_C01_Data \cup U_C01_Move \cup U_C01_Ctl \cup U_C01_Overlap \cup U_C07_24 \cup U_C07_Ctx
+U_C01_Before == {DeclP([C0 |-> Class(DefaultOpts, <<MvField(DataF("a", SzConst(n1)), [kind |-> "at", arg |-> SzConst(p1), ref |-> "innermost-pkt"]),
+                                                     MvField(DataF("b", SzConst(n2)), [kind |-> "at", arg |-> SzConst(p2), ref |-> "innermost-pkt"])>>)],
+                       {0, 1, 46}, 6, {0, 1}) : n1 \in {1, 2}, p1 \in {2, 4}, n2 \in {1, 3, 4}, p2 \in {0, 1, 2}}
+U_C01 == U_C01_Before \cup U_C10_Back \cup U_C01_Data \cup U_C01_Move \cup U_C01_Ctl \cup U_C01_Overlap \cup U_C07_24 \cup U_C07_Ctx
 
 \* the every-change subset: every family is represented, the cross products are thinned
-U_C01_Q == U_C01_Data \cup U_C01_Overlap \cup U_C07_24
+U_C01_Q == U_C01_Data \cup U_C01_Overlap \cup U_C07_24 \cup U_C01_Before \cup U_C10_Back
            \cup {[d EXCEPT !.alpha = {0, 1, 46}] : d \in U_C10_Class \cup U_C10_Elem}
            \cup {[d EXCEPT !.alpha = {0, 2, 46}, !.starts = {0}] : d \in U_C10_Flat}
            \cup U_C08_Until \cup U_C08_Nest
            \cup {d \in U_C08_Opt : d.prog["C0"].fields[2].when = SzField("t")}
 
+\* no positioning measured from absolute position 0: 'begins' references, the class-wide align
+\* option, per-element alignment of repeated fields
 NoBegins(d) == \A c \in DOMAIN d.prog : \A i \in 1..Len(d.prog[c].fields) :
-                  ~UsesBegins(d.prog[c].fields[i].mv) /\ d.prog[c].opts.align = 0
-NoRawCallable(d) == \A c \in DOMAIN d.prog : \A i \in 1..Len(d.prog[c].fields) :
+                  LET f == d.prog[c].fields[i] IN
+                  ~UsesBegins(f.mv) /\ d.prog[c].opts.align = 0 /\ (f.k = "Rep" => f.aligned = 0)
+NoRawCallable0(d) == \A c \in DOMAIN d.prog : \A i \in 1..Len(d.prog[c].fields) :
                   LET f == d.prog[c].fields[i] IN ~(f.k = "Data" /\ f.size = Lam(EBin("sub", ERest, EC(1))))
+NoRawCallable(d) == NoRawCallable0(d)
+U_C14 == {d \in U_C01 \cup U_C06 : NoBegins(d) /\ NoRawCallable(d)}
+IsScan(d) == d.prog["C0"].fields[2].k = "Data" /\ d.prog["C0"].fields[2].size.m \in {"marker", "regex"}
+U_C14_Q == {d \in {e \in U_C01_Data : e.prog["C0"].opts.endian = "none"} \cup U_C01_Before \cup U_C10_Back \cup U_C08_Nest
+                   \cup {e \in U_C08_Until : e.prog["C0"].fields[2].aligned = 0 /\ e.prog["C0"].fields[2].when = NoCond}
+                   \cup {e \in U_C06 : Len(e.prog["C0"].fields) = 3 /\ IsScan(e) /\ e.prog["C0"].fields[2].size.consume
+                                        /\ e.prog["C0"].opts.sbl \in (IF e.prog["C0"].fields[2].size.m = "regex" THEN {-1} ELSE {-1, 2})} :
+               NoBegins(d) /\ NoRawCallable(d)}
 =============================================================================
